@@ -59,6 +59,12 @@ class Harness(cm.BaseB):
                     coll.insert(pos, bad)
                     for ep in ("prep", "aspirate_well", "dispense_well", "dispense", "transfer_f"):
                         yield {"ep": ep, "tip": coll, "invalid": True}
+            for bad in (0, 9, 2.5, "2"):
+                for pos in range(3):
+                    coll = [1, {"$tip": "T3"}]
+                    coll.insert(pos, bad)
+                    for ep in ("aspirate_well", "dispense_well"):
+                        yield {"ep": ep, "tip": coll, "invalid": True, "cont": "iter"}
             for pos in range(3):
                 coll = [2, {"$tip": "T8"}]
                 coll.insert(pos, {"$tip": "Any"})
@@ -74,8 +80,10 @@ class Harness(cm.BaseB):
                     coll = [{"$tip": f"T{t}"} for t in reversed(members)]
                 else:
                     coll = members + [{"$tip": f"T{members[len(members) // 2]}"}]
-                for cont in ("list", "tuple", "set"):
+                for cont in ("list", "tuple", "set", "iter"):
                     if cont == "set" and chunk["form"] == "dup":
+                        continue
+                    if cont == "iter" and m % 5:
                         continue
                     for ep in ("aspirate_well", "dispense_well") + (("aspirate", "dispense", "transfer_e", "transfer_f", "prep") if cont == "list" else ()):
                         yield {"ep": ep, "tip": coll, "cont": cont}
@@ -110,6 +118,8 @@ class Harness(cm.BaseB):
             tip = tuple(tip)
         elif case.get("cont") == "set":
             tip = set(tip)
+        elif case.get("cont") == "iter":
+            tip = iter(list(tip))  # a one-shot iterator (also: generators, map objects)
         is_any = raw == {"$tip": "Any"}
         invalid = case.get("invalid", False)
         if not invalid:
@@ -173,13 +183,18 @@ class Harness(cm.BaseB):
         n = len(tips)
         wells = [f"{'ABCDEFGHIJKLMNOP'[i]}01" for i in range(n)]
         vols = [10.0 + i for i in range(n)]
+        maxv = float("nan")
+        if case.get("form") in (2, 4):
+            # large volumes that differ only in the last emitted digit
+            vols = [1000.01 + 0.01 * i for i in range(n)]
+            maxv = 5000
         exc = None
         try:
             if ep == "evo_wash":
                 cmd = commands.evo_wash(tips=tips, waste_location=(52, 2), cleaner_location=(52, 1))
             else:
                 fn = commands.evo_aspirate if ep == "evo_aspirate" else commands.evo_dispense
-                cmd = fn(n_rows=16, n_columns=2, wells=wells, labware_position=(30, 2), volume=vols, liquid_class="LC", tips=tips)
+                cmd = fn(n_rows=16, n_columns=2, wells=wells, labware_position=(30, 2), volume=vols, liquid_class="LC", tips=tips, max_volume=maxv)
         except Exception as e:
             exc = e
         if invalid:
@@ -211,6 +226,7 @@ class Harness(cm.BaseB):
                 for t, v in zip(nums, vols):
                     exp[t - 1] = v
                 got = [None if s is None else float(s) for s in slots]
+                exp = [None if e is None else round(e, 2) for e in exp]
                 if got != exp or any(s is not None for s in p["slots"][8:]):
                     V.append(("C10/evo-volume-slots", f"{ep}(tips={raw!r}, volumes={vols}): slots {got}, expected {exp}"))
         return f"{ep}:ok", repr(case), V
